@@ -149,7 +149,7 @@ func checkC17(c *core.Ctx) {
 				}
 				c.Nontrivial(sig)
 				all = append(all, s+"[1]")
-				if i%7 == 0 && j == 4 {
+				if j == 4 && c.WantSample() {
 					c.Sample(map[string]any{"key": ks, "kind": kind, "printed": s, "sounded_pitch_classes": pcs})
 				}
 			}
